@@ -160,7 +160,7 @@ impl<'a> Lexer<&'a str> {
             }
             // ignore all lines that end with an odd number of backslashes
             loop {
-                let (before, after) = self.i.split_once('\n').unwrap_or((self.i, ""));
+                let (before, after) = self.i.split_once('\n').unwrap_or((self.i, &self.i[self.i.len()..]));
                 let before = before.strip_suffix('\r').unwrap_or(before);
                 self.i = after;
                 // does the line end with an even number of backslashes?
